@@ -8,6 +8,7 @@ mod c08;
 mod c09;
 mod c10;
 mod c11;
+mod c12;
 mod c13;
 mod c14;
 mod c16;
@@ -37,6 +38,7 @@ fn lookup(id: &str) -> Option<(RunFn, CheckFn)> {
         "C09" => (c09::run, c09::check_record),
         "C10" => (c10::run, c10::check_record),
         "C11" => (c11::run, c11::check_record),
+        "C12" => (c12::run, c12::check_record),
         "C13" => (c13::run, c13::check_record),
         "C14" => (c14::run, c14::check_record),
         "C16" => (c16::run, c16::check_record),
